@@ -81,6 +81,10 @@ def rStep (c : RCfg) (s : RState) (ev : REv) : RState × List AckObs :=
 def rInit (c : RCfg) : RState :=
   { bn := 0, win := Window.new c.w c.b FileSt.create, retry := 0, status := .running, accepted := [] }
 
+/-- the worker on a target that can be created but not written (`ENOSPC`, `EFBIG`, ... on every non-empty `write_all`) -/
+def rInitUnwritable (c : RCfg) : RState :=
+  { rInit c with win := Window.new c.w c.b { FileSt.create with canWrite := false } }
+
 def rRunFrom (c : RCfg) : RState → List REv → List (List AckObs) × RState
   | s, [] => ([], s)
   | s, e :: es =>
